@@ -24,6 +24,7 @@ def fast_index_stage(R, tier, rng):
 def run(R, tier, rng):
     fast_index_stage(R, tier, rng)
     fam_hash2.extra_stage(R, tier, rng, True)
+    fam_hash2.big_stage(R, tier, rng, True)
     fam_hash2.run_family2(R, tier, rng, True)
     fam_hash.run_family(R, tier, rng, counter=True)
 
